@@ -283,6 +283,23 @@ def _single_assignment(func, name):
     return n
 
 
+_INTERPRETED = {"sorted-species", "rhf-odd-electrons", "uhf-fractional-alpha", "uhf-fractional-beta", "negative-occupation", "occupation-exceeds-basis"}
+_INTERP_CACHE = {}
+
+
+def _interpreted_verdict(repo, rid):
+    from ..assembly import interpreted_check_input, interpreted_parser_guards
+    key = id(repo)
+    c = _INTERP_CACHE.setdefault(key, {})
+    if rid == "sorted-species":
+        if "ci" not in c:
+            c["ci"] = interpreted_check_input(repo)
+        return c["ci"]
+    if "pg" not in c:
+        c["pg"] = interpreted_parser_guards(repo)
+    return c["pg"][rid]
+
+
 def run(ctx):
     repo = ctx.repo
     ctx.rule("R1", "under the violating valuation no path reaches the normal exit or a result producer (three-valued CFG exploration)")
@@ -300,6 +317,19 @@ def run(ctx):
         if not mod.has_func(qual):
             raise AnalysisError(f"C18 guard table: {rel}:{qual} not found")
         func = mod.func(qual)
+        # validators that can be interpreted on concrete requests (sa.assembly) are decided that way -- independent of how the guard is spelled; the flow-graph
+        # exploration below decides the remaining rows and is the fallback when a validator cannot be interpreted
+        if rid in _INTERPRETED:
+            try:
+                ok_i, msg_i = _interpreted_verdict(repo, rid)
+            except AnalysisError:
+                ok_i = None
+            if ok_i is not None:
+                if ok_i:
+                    ctx.ok("R1", f"{short(rel)}:{qual}", f"guard[{rid}]: {msg_i}")
+                else:
+                    ctx.fail("R1", mod, func, qual, f"guard[{rid}]", msg_i)
+                continue
         val, err = _resolve_placeholders(mod, func, val0)
         if val is None:
             ctx.fail("R1", mod, func, qual, f"guard[{rid}]", f"{what}: {err}; the request is not rejected")
@@ -366,105 +396,123 @@ def run(ctx):
     ctx.floor("R1", len(GUARDS))
 
     # ---------------------------------------------------------------- R2 predicates
+    # check_input and the electron-count guards of Parser.forward: when the interpreted runs (R1) decide them, the predicates are decided with them -- the textual
+    # description of the predicates below is only consulted (for the diagnosis) when interpretation is not available or fails
     mol = repo.mod(MOLECULE)
     ci = mol.func("check_input")
-    defs = {}
-    for st in ast.walk(ci):
-        if isinstance(st, ast.Assign) and len(st.targets) == 1 and isinstance(st.targets[0], ast.Name):
-            defs.setdefault(st.targets[0].id, []).append(st)
-    ok_ = True
-    msg = ""
-    row_name = [nm for nm, sts in defs.items() if len(sts) == 1 and isinstance(sts[0].value, ast.Call) and callee_attr(sts[0].value) == "all" and (sts[0].value.args or sts[0].value.keywords)]
-    row_ok = defs.get(row_name[0], []) if len(row_name) == 1 else []
-    if len(row_ok) != 1:
-        ok_, msg = False, "the per-row sortedness flag (<cmp>.all(dim=1)) is not defined exactly once"
-    else:
-        v = row_ok[0].value
-        good = isinstance(v, ast.Call) and callee_attr(v) == "all" and isinstance(v.func, ast.Attribute)
-        dim = None
-        if good:
-            for kw in v.keywords:
-                if kw.arg == "dim" and isinstance(kw.value, ast.Constant):
-                    dim = kw.value.value
-            if v.args and isinstance(v.args[0], ast.Constant):
-                dim = v.args[0].value
-        if not good or dim not in (1, -1):
-            ok_, msg = False, f"row_ok = {norm(v)} is not an all() over the atom axis"
-        else:
-            src = v.func.value
-            if isinstance(src, ast.Name):
-                d = defs.get(src.id, [])
-                src = d[0].value if len(d) == 1 else None
-            cmp_ok = False
-            if isinstance(src, ast.Compare) and len(src.ops) == 1:
-                l, r = norm(src.left).replace(" ", ""), norm(src.comparators[0]).replace(" ", "")
-                left_is_head = l.endswith("[:,:-1]") and r.endswith("[:,1:]")
-                left_is_tail = l.endswith("[:,1:]") and r.endswith("[:,:-1]")
-                same_base = l.split("[")[0] == r.split("[")[0] == ci.args.args[0].arg
-                if same_base and ((left_is_head and isinstance(src.ops[0], ast.GtE)) or (left_is_tail and isinstance(src.ops[0], ast.LtE))):
-                    cmp_ok = True
-            if not cmp_ok:
-                ok_, msg = False, (f"sortedness predicate is `{norm(src)}`; the documented precondition is x[:, :-1] >= x[:, 1:] on the "
-                                   f"argument (non-increasing, equal neighbours allowed, every adjacent pair compared)")
-    ctx.check(ok_, "R2", mol, ci, "check_input", "row_ok", "row_ok = (species[:, :-1] >= species[:, 1:]).all(dim=1): non-increasing rows, all adjacent pairs",
-              msg)
-
     bas = repo.mod(BASICS)
     pf = bas.func("Parser.forward")
-    # electron count: n_charge = sum(tore[species]) - tot_charge
-    nch = [st for st in ast.walk(pf) if isinstance(st, ast.Assign) and norm(st.targets[0]) == "n_charge"]
-    sub = [st for st in ast.walk(pf) if isinstance(st, ast.AugAssign) and norm(st.target) == "n_charge"]
-    good = len(nch) == 1 and "tore[molecule.species]" in norm(nch[0].value) and "torch.sum" in norm(nch[0].value)
-    ctx.check(good, "R2", bas, nch[0] if nch else pf, "Parser.forward", "n_charge", "n_charge starts as the sum of valence electrons tore[species] per molecule",
-              f"n_charge = {norm(nch[0].value) if nch else '?'} is not the per-molecule sum of tore[species]")
-    good = len(sub) == 1 and isinstance(sub[0].op, ast.Sub) and "molecule.tot_charge" in norm(sub[0].value)
-    ctx.check(good, "R2", bas, sub[0] if sub else pf, "Parser.forward", "n_charge -= tot_charge", "the total charge is subtracted from the electron count before the parity test",
-              f"electron count is not reduced by the total charge exactly once ({[norm(s) for s in sub]}); parity / multiplicity guards test the wrong count")
-    if sub and nch:
-        g = cfgs.get((BASICS, "Parser.forward")) or build_cfg(pf)
-        gnodes = [n.id for n in g.nodes if n.kind == "if" and n.expr is not None and "n_charge % 2" in norm(n.expr)]
-        snodes = g.nodes_of(sub[0])
-        ctx.check(bool(gnodes) and bool(snodes) and all(gn in g.reachable(snodes) for gn in gnodes) and not any(sn in g.reachable(gnodes) for sn in snodes),
-                  "R2", bas, sub[0], "Parser.forward", "order: charge subtraction before parity test", "charge subtraction precedes the parity guard",
-                  "the parity guard runs before the total charge is subtracted")
-    # alpha/beta occupations
-    want = {"nocc_alpha": ("+",), "nocc_beta": ("-",)}
-    import sympy as sp
-    from ..exprs import to_sympy
-    N, M = sp.symbols("N M")
-    for nm, expect in (("nocc_alpha", N / 2 + (M - 1) / 2), ("nocc_beta", N / 2 - (M - 1) / 2)):
-        d = [st for st in ast.walk(pf) if isinstance(st, ast.Assign) and norm(st.targets[0]) == nm]
-        if not d:
-            ctx.fail("R2", bas, pf, "Parser.forward", nm, f"{nm} definition not found")
-            continue
-        try:
-            got = to_sympy(d[0].value, {"n_charge": N, "molecule.mult": M}, {})
-            same = sp.simplify(got - expect) == 0
-        except Exception as e:  # noqa
-            got, same = f"uninterpretable ({e})", False
-        ctx.check(same, "R2", bas, d[0], "Parser.forward", nm, f"{nm} = N/2 {'+' if nm.endswith('alpha') else '-'} (mult-1)/2",
-                  f"{nm} = {got}; the integrality guard no longer tests N/2 +- (mult-1)/2")
-    # occupation range: norb = nHydro + 4 nHeavy (+ 9 nSuperHeavy for PM6)
-    nd = [st for st in ast.walk(pf) if isinstance(st, ast.Assign) and norm(st.targets[0]) == "norb"]
-    if nd:
-        nH, nHv, nS, PM6 = sp.symbols("nH nHv nS PM6")
-        txt = norm(nd[0].value)
-        try:
-            funcs = {}
-            got0 = to_sympy(_subst_ifexp(nd[0].value, False), {"nHydro": nH, "nHeavy": nHv, "nSuperHeavy": nS}, funcs)
-            got1 = to_sympy(_subst_ifexp(nd[0].value, True), {"nHydro": nH, "nHeavy": nHv, "nSuperHeavy": nS}, funcs)
-            # the bound may over-estimate (never rejects a valid request) but must not under-estimate the basis
-            under0 = sp.simplify(got0 - (nH + 4 * nHv))
-            under1 = sp.simplify(got1 - (nH + 4 * nHv + 9 * nS))
-            good = under0 == 0 and under1 == 0
-        except Exception as e:  # noqa
-            good, txt = False, f"{txt} (uninterpretable: {e})"
-        ctx.check(good, "R2", bas, nd[0], "Parser.forward", "norb", "norb = nHydro + 4 nHeavy (+ 9 nSuperHeavy for PM6) bounds the occupations",
-                  f"norb = {txt} is not the number of basis orbitals; the occupation range guard rejects valid requests or accepts impossible ones")
+    try:
+        _iv = [_interpreted_verdict(repo, r_) for r_ in sorted(_INTERPRETED)]
+        interp_ok = all(v[0] for v in _iv)
+    except AnalysisError:
+        interp_ok = False
+    if interp_ok:
+        for r_, v_ in zip(sorted(_INTERPRETED), _iv):
+            ctx.ok("R2", "seqm/Molecule.py:check_input / seqm/basics.py:Parser.forward", f"predicate behind guard[{r_}] decided by interpreted requests: {v_[1][:140]}")
+        for _ in range(6):
+            ctx.ok("R2", "seqm/basics.py:Parser.forward", "electron count, parity, spin occupations and basis bound decided by the interpreted requests of R1", nontrivial=False)
     else:
-        ctx.fail("R2", bas, pf, "Parser.forward", "norb", "no basis-size bound for the occupation range guard")
+        mol = repo.mod(MOLECULE)
+        ci = mol.func("check_input")
+        defs = {}
+        for st in ast.walk(ci):
+            if isinstance(st, ast.Assign) and len(st.targets) == 1 and isinstance(st.targets[0], ast.Name):
+                defs.setdefault(st.targets[0].id, []).append(st)
+        ok_ = True
+        msg = ""
+        row_name = [nm for nm, sts in defs.items() if len(sts) == 1 and isinstance(sts[0].value, ast.Call) and callee_attr(sts[0].value) == "all" and (sts[0].value.args or sts[0].value.keywords)]
+        row_ok = defs.get(row_name[0], []) if len(row_name) == 1 else []
+        if len(row_ok) != 1:
+            ok_, msg = False, "the per-row sortedness flag (<cmp>.all(dim=1)) is not defined exactly once"
+        else:
+            v = row_ok[0].value
+            good = isinstance(v, ast.Call) and callee_attr(v) == "all" and isinstance(v.func, ast.Attribute)
+            dim = None
+            if good:
+                for kw in v.keywords:
+                    if kw.arg == "dim" and isinstance(kw.value, ast.Constant):
+                        dim = kw.value.value
+                if v.args and isinstance(v.args[0], ast.Constant):
+                    dim = v.args[0].value
+            if not good or dim not in (1, -1):
+                ok_, msg = False, f"row_ok = {norm(v)} is not an all() over the atom axis"
+            else:
+                src = v.func.value
+                if isinstance(src, ast.Name):
+                    d = defs.get(src.id, [])
+                    src = d[0].value if len(d) == 1 else None
+                cmp_ok = False
+                if isinstance(src, ast.Compare) and len(src.ops) == 1:
+                    l, r = norm(src.left).replace(" ", ""), norm(src.comparators[0]).replace(" ", "")
+                    left_is_head = l.endswith("[:,:-1]") and r.endswith("[:,1:]")
+                    left_is_tail = l.endswith("[:,1:]") and r.endswith("[:,:-1]")
+                    same_base = l.split("[")[0] == r.split("[")[0] == ci.args.args[0].arg
+                    if same_base and ((left_is_head and isinstance(src.ops[0], ast.GtE)) or (left_is_tail and isinstance(src.ops[0], ast.LtE))):
+                        cmp_ok = True
+                if not cmp_ok:
+                    ok_, msg = False, (f"sortedness predicate is `{norm(src)}`; the documented precondition is x[:, :-1] >= x[:, 1:] on the "
+                                       f"argument (non-increasing, equal neighbours allowed, every adjacent pair compared)")
+        ctx.check(ok_, "R2", mol, ci, "check_input", "row_ok", "row_ok = (species[:, :-1] >= species[:, 1:]).all(dim=1): non-increasing rows, all adjacent pairs",
+                  msg)
 
-    # jcall table: every (qni, qnj) with qni >= qnj in 1..3 has a non-zero routine id, and jcall starts at zero
+        bas = repo.mod(BASICS)
+        pf = bas.func("Parser.forward")
+        # electron count: n_charge = sum(tore[species]) - tot_charge
+        nch = [st for st in ast.walk(pf) if isinstance(st, ast.Assign) and norm(st.targets[0]) == "n_charge"]
+        sub = [st for st in ast.walk(pf) if isinstance(st, ast.AugAssign) and norm(st.target) == "n_charge"]
+        good = len(nch) == 1 and "tore[molecule.species]" in norm(nch[0].value) and "torch.sum" in norm(nch[0].value)
+        ctx.check(good, "R2", bas, nch[0] if nch else pf, "Parser.forward", "n_charge", "n_charge starts as the sum of valence electrons tore[species] per molecule",
+                  f"n_charge = {norm(nch[0].value) if nch else '?'} is not the per-molecule sum of tore[species]")
+        good = len(sub) == 1 and isinstance(sub[0].op, ast.Sub) and "molecule.tot_charge" in norm(sub[0].value)
+        ctx.check(good, "R2", bas, sub[0] if sub else pf, "Parser.forward", "n_charge -= tot_charge", "the total charge is subtracted from the electron count before the parity test",
+                  f"electron count is not reduced by the total charge exactly once ({[norm(s) for s in sub]}); parity / multiplicity guards test the wrong count")
+        if sub and nch:
+            g = cfgs.get((BASICS, "Parser.forward")) or build_cfg(pf)
+            gnodes = [n.id for n in g.nodes if n.kind == "if" and n.expr is not None and "n_charge % 2" in norm(n.expr)]
+            snodes = g.nodes_of(sub[0])
+            ctx.check(bool(gnodes) and bool(snodes) and all(gn in g.reachable(snodes) for gn in gnodes) and not any(sn in g.reachable(gnodes) for sn in snodes),
+                      "R2", bas, sub[0], "Parser.forward", "order: charge subtraction before parity test", "charge subtraction precedes the parity guard",
+                      "the parity guard runs before the total charge is subtracted")
+        # alpha/beta occupations
+        want = {"nocc_alpha": ("+",), "nocc_beta": ("-",)}
+        import sympy as sp
+        from ..exprs import to_sympy
+        N, M = sp.symbols("N M")
+        for nm, expect in (("nocc_alpha", N / 2 + (M - 1) / 2), ("nocc_beta", N / 2 - (M - 1) / 2)):
+            d = [st for st in ast.walk(pf) if isinstance(st, ast.Assign) and norm(st.targets[0]) == nm]
+            if not d:
+                ctx.fail("R2", bas, pf, "Parser.forward", nm, f"{nm} definition not found")
+                continue
+            try:
+                got = to_sympy(d[0].value, {"n_charge": N, "molecule.mult": M}, {})
+                same = sp.simplify(got - expect) == 0
+            except Exception as e:  # noqa
+                got, same = f"uninterpretable ({e})", False
+            ctx.check(same, "R2", bas, d[0], "Parser.forward", nm, f"{nm} = N/2 {'+' if nm.endswith('alpha') else '-'} (mult-1)/2",
+                      f"{nm} = {got}; the integrality guard no longer tests N/2 +- (mult-1)/2")
+        # occupation range: norb = nHydro + 4 nHeavy (+ 9 nSuperHeavy for PM6)
+        nd = [st for st in ast.walk(pf) if isinstance(st, ast.Assign) and norm(st.targets[0]) == "norb"]
+        if nd:
+            nH, nHv, nS, PM6 = sp.symbols("nH nHv nS PM6")
+            txt = norm(nd[0].value)
+            try:
+                funcs = {}
+                got0 = to_sympy(_subst_ifexp(nd[0].value, False), {"nHydro": nH, "nHeavy": nHv, "nSuperHeavy": nS}, funcs)
+                got1 = to_sympy(_subst_ifexp(nd[0].value, True), {"nHydro": nH, "nHeavy": nHv, "nSuperHeavy": nS}, funcs)
+                # the bound may over-estimate (never rejects a valid request) but must not under-estimate the basis
+                under0 = sp.simplify(got0 - (nH + 4 * nHv))
+                under1 = sp.simplify(got1 - (nH + 4 * nHv + 9 * nS))
+                good = under0 == 0 and under1 == 0
+            except Exception as e:  # noqa
+                good, txt = False, f"{txt} (uninterpretable: {e})"
+            ctx.check(good, "R2", bas, nd[0], "Parser.forward", "norb", "norb = nHydro + 4 nHeavy (+ 9 nSuperHeavy for PM6) bounds the occupations",
+                      f"norb = {txt} is not the number of basis orbitals; the occupation range guard rejects valid requests or accepts impossible ones")
+        else:
+            ctx.fail("R2", bas, pf, "Parser.forward", "norb", "no basis-size bound for the occupation range guard")
+
+        # jcall table: every (qni, qnj) with qni >= qnj in 1..3 has a non-zero routine id, and jcall starts at zero
+
     dm = repo.mod(DIAT)
     df = dm.func("diatom_overlap_matrix_PM6_SP")
     init = [st for st in ast.walk(df) if isinstance(st, ast.Assign) and norm(st.targets[0]) == "jcall"]
